@@ -13,7 +13,7 @@ CFG = {
 }
 SPO = r'(const )?std::(shared_ptr<op>|__shared_ptr<op.*>|__shared_ptr_access<op.*>)'
 UPP = r'(const )?std::(unique_ptr<pred(, std::default_delete<pred>)?>|shared_ptr<pred>|__shared_ptr<pred.*>|__shared_ptr_access<pred.*>)'
-UPS = r'std::unique_ptr<stack(, std::default_delete<stack>)?>'
+UPS = r'(std::)?unique_ptr<stack(, std::default_delete<stack>)?>'
 OP_CFG = {
     'names': {'pred_not::result': 'pred_not_result', 'pred_and::result': 'pred_and_result', 'pred_or::result': 'pred_or_result',
               'op_assert::next': 'op_assert_next', '_Znt11pred_result': 'pred_not_op', '_Zaa11pred_resultS_': 'pred_and_op',
